@@ -11,3 +11,5 @@ import CompmechVerif.Props.C05
 #print axioms Compmech.EigPost.C05.cayley_selects_smallest_positive
 #print axioms Compmech.EigPost.C05.ascending_lowest_unique
 #print axioms Compmech.EigPost.C05.lb_scale
+#print axioms Compmech.EigPost.C05.cone_lb_pairs
+#print axioms Compmech.EigPost.C05.cone_lb_pencil
